@@ -55,8 +55,13 @@ def gen_mixed(rng, n=None, kinds=None, with_unsupported=0.0, with_comments=0.0):
         grp = gen_group(rng, k, q)
         if with_comments and rng.random() < with_comments:
             cn += 1
-            if rng.random() < 0.5 and "'" not in grp[-1].split("\n")[-1]:
+            r = rng.random()
+            if r < 0.4 and "'" not in grp[-1].split("\n")[-1]:
                 grp = grp[:-1] + [grp[-1] + " -- cmt%d about %s" % (cn, k)]      # trailing comment (reported)
+            elif r < 0.5 and "'" not in grp[-1].split("\n")[-1]:
+                grp = grp[:-1] + [grp[-1] + rng.choice([" --", " -- "])]          # trailing comment with an empty / blank text (reported as '' / ' ')
+            elif r < 0.6:
+                stmts.append("/* cmt%d before %s\n\n   still cmt%d */" % (cn, k, cn))   # block comment with an empty interior line
             else:
                 stmts.append("/* cmt%d before %s */" % (cn, k))                 # whole-line block comment (reported)
         stmts.extend(grp)
